@@ -83,8 +83,8 @@ MUTANTS: dict[str, dict[str, list[tuple[str, str, str]]]] = {
     'C04': {
         'derived-depends-on-lifetimes-again': [('forml/flow/_graph/atomic.py',
                                                 ' or (self._group.trained and not self.trained)', '')],
-        'state-offset-reversed': [('forml/io/asset/_access.py', 'return self._nodes.index(gid)',
-                                   'return len(self._nodes) - 1 - self._nodes.index(gid)')],
+        'state-load-offset-shifted': [('forml/io/asset/_access.py', 'return self._generation.get(self.offset(gid))',
+                                       'return self._generation.get((self.offset(gid) + 1) % len(self._nodes))')],
         'setstate-keeps-pickled-params': [('forml/flow/_code/target/user.py',
                                            """        params = actor.get_params()
         actor.set_state(value)
